@@ -70,8 +70,16 @@ def viewer_frame(v, viewer):
     c = pos
     if v["cls"] == "Object":
         c = pos + R @ np.array(v.get("cam", (0, 0, 0)), dtype=float)
+    # the effective angles follow the documented rule (never more than (tau, pi)) applied to the REQUESTED angles; what the
+    # object stores after construction is reported separately (`va_obj`) and compared with the model's truncation
+    return c, R, float(viewer.visibleDistance), (min(float(v["va"][0]), math.tau), min(float(v["va"][1]), math.pi))
+
+
+def stored_angles(v, viewer):
+    if v["cls"] == "Point":
+        return None
     va = viewer.viewAngles
-    return c, R, float(viewer.visibleDistance), (float(va[0]), float(va[1]))
+    return [float(va[0]), float(va[1])]
 
 
 def ray_hits(mesh, origin, direction):
@@ -113,7 +121,8 @@ def run_point(case):
         target = Point._with(position=vec(case["target"]["pos"]))
     else:
         target = OrientedPoint._with(position=vec(case["target"]["pos"]), yaw=case["target"].get("yaw", 0.3))
-    out = dict(c=c.tolist(), R=None if R is None else R.tolist(), d=d, va=list(va), p=p.tolist())
+    out = dict(c=c.tolist(), R=None if R is None else R.tolist(), d=d, va=list(va), p=p.tolist(),
+               va_obj=stored_angles(case["viewer"], viewer))
     try:
         out["res"] = bool(viewer.canSee(target, occludingObjects=tuple(occs)))
     except Exception as e:
@@ -143,7 +152,7 @@ def run_object(case):
     occs = [make_obj(o) for o in case["occ"]]
     target = make_obj(case["target"])
     c, R, d, va = viewer_frame(case["viewer"], viewer)
-    out = dict(c=c.tolist(), R=None if R is None else R.tolist(), d=d, va=list(va))
+    out = dict(c=c.tolist(), R=None if R is None else R.tolist(), d=d, va=list(va), va_obj=stored_angles(case["viewer"], viewer))
     out["target"] = mesh_facts(target, case["target"].get("ball_local"))
     out["target"]["containsCenter"] = bool(target.shape.containsCenter)
     out["occ"] = [mesh_facts(o) for o in occs]
@@ -161,6 +170,14 @@ def run_object(case):
     except Exception as e:
         out["exc"] = type(e).__name__ + ": " + str(e)[:200]
     out["res"] = res
+    # the same occluders handed over in other ORDERS (the answer must not depend on the order)
+    perm = {}
+    try:
+        for order in case.get("orders", []):
+            perm[",".join(map(str, order))] = bool(viewer.canSee(target, occludingObjects=tuple(occs[i] for i in order)))
+    except Exception as e:
+        out["exc"] = type(e).__name__ + ": " + str(e)[:200]
+    out["perm"] = perm
     if case.get("grid", True):
         try:
             out["grid"] = record_grid(case, c, R, d)
@@ -245,6 +262,118 @@ def record_grid(case, c, R, d):
     return out
 
 
+def _crc(*parts):
+    import zlib
+    return zlib.crc32(b"|".join(p if isinstance(p, bytes) else str(p).encode() for p in parts))
+
+
+def script_tables(script, key, n, d):
+    """scripted hit tables of one ray (a pure function of the script and of the ray direction's bytes): distances at which
+    the ray hits the target, and each of the n occluders.  Target hits within range lie in [2, 4], blocking occluder hits in
+    [0.5, 1.5], non-blocking ones beyond 4.5 (so no comparison is ever close)."""
+    seed, pat, m = script["seed"], script["pattern"], script["m"]
+    u = _crc(seed, "T", key) % 12
+    if pat in ("partition", "nested") and u < 2:
+        u += 2
+    if u == 0:
+        th = []
+    elif u == 1:
+        th = [d + 1.0]                      # hits the target only beyond the visible distance
+    elif u == 2:
+        th = [d + 2.0, 3.0]                 # a hit beyond the distance listed before one within it
+    elif u == 3:
+        th = [3.5, 2.5]                     # two hits, the farther one first
+    else:
+        th = [2.0 + 0.5 * (u % 5)]
+    k = _crc(seed, "K", key) % m
+    oh = []
+    for j in range(n):
+        x = _crc(seed, "O", j, key)
+        if pat == "partition":
+            blocks = (k == j)
+        elif pat == "nested":
+            blocks = (k <= j)
+        elif pat == "first":
+            blocks = (j == 0) or (x % 3 == 0)
+        else:
+            blocks = (x % 100) < script["p"][j]
+        hs = []
+        if (x >> 8) % 4 == 0:
+            hs.append(4.75 + 0.25 * ((x >> 12) % 3))      # behind the target: does not block
+        if blocks:
+            hs.append(0.5 + 0.25 * ((x >> 16) % 5))
+        if (x >> 20) % 5 == 0:
+            hs.append(d + 3.0)
+        oh.append(hs)
+    return th, oh
+
+
+def run_scripted(case):
+    """exact correspondence for the occluder loop: trimesh's intersector is replaced by scripted hit tables, the verdict of
+    canSee for every ordered list of occluders is compared (by the harness) with the model run on the same tables"""
+    import trimesh.ray.ray_triangle as rt
+    viewer = make_viewer(case["viewer"])
+    target = make_obj(case["target"])
+    occs = [make_obj(o) for o in case["occ"]]
+    c, R, d, va = viewer_frame(case["viewer"], viewer)
+    n = len(occs)
+    tmesh = target.occupiedSpace.mesh
+    omesh = {id(o.occupiedSpace.mesh): j for j, o in enumerate(occs)}
+    script = case["script"]
+    state = dict(mode="record", in_grid=False, rec=[])
+    orig = rt.RayMeshIntersector.intersects_location
+    orig_contains = rt.RayMeshIntersector.contains_points
+    empty = lambda: (np.zeros((0, 3)), np.zeros(0, dtype=int), np.zeros(0, dtype=int))
+
+    def fake(self, ray_origins, ray_directions, **kw):
+        dirs = np.asarray(ray_directions, dtype=float).reshape(-1, 3)
+        orgs = np.asarray(ray_origins, dtype=float).reshape(-1, 3)
+        is_t = self.mesh is tmesh
+        if is_t:
+            state["in_grid"] = True
+            if state["mode"] == "record":
+                state["rec"].append(dirs.copy())
+                return empty()
+        elif not state["in_grid"]:
+            # the quick test of the target's centre: always blocked, so that the ray-casting path decides
+            return orgs.copy(), np.arange(len(orgs)), np.zeros(len(orgs), dtype=int)
+        j = None if is_t else omesh.get(id(self.mesh))
+        locs, idx = [], []
+        for i in range(len(dirs)):
+            th, oh = script_tables(script, dirs[i].tobytes(), n, d)
+            for h in (th if is_t else (oh[j] if j is not None else [])):
+                locs.append(orgs[i] + h * dirs[i])
+                idx.append(i)
+        if not locs:
+            return empty()
+        return np.array(locs), np.array(idx, dtype=int), np.zeros(len(idx), dtype=int)
+
+    def contains(self, points):
+        rt.RayMeshIntersector.intersects_location = orig
+        try:
+            return orig_contains(self, points)
+        finally:
+            rt.RayMeshIntersector.intersects_location = fake
+    out = dict(c=c.tolist(), d=d, va=list(va), lists={}, va_obj=stored_angles(case["viewer"], viewer))
+    rt.RayMeshIntersector.intersects_location = fake
+    rt.RayMeshIntersector.contains_points = contains
+    try:
+        try:
+            viewer.canSee(target, occludingObjects=tuple(occs))          # recording pass: nothing is hit, every batch is cast
+            state["mode"] = "script"
+            for order in case["orders"]:
+                state["in_grid"] = False
+                out["lists"][",".join(map(str, order))] = bool(viewer.canSee(target, occludingObjects=tuple(occs[i] for i in order)))
+        except Exception as e:
+            out["exc"] = type(e).__name__ + ": " + str(e)[:200]
+    finally:
+        rt.RayMeshIntersector.intersects_location = orig
+        rt.RayMeshIntersector.contains_points = orig_contains
+    out["batches"] = [[list(script_tables(script, r.tobytes(), n, d)) for r in b] for b in state["rec"]]
+    out["nrays"] = int(sum(len(b) for b in state["rec"]))
+    return out
+
+
 def run_2d(case):
     """2D compatibility classes: _canSee2D fast path (no occluders)"""
     from scenic.core.object_types import Object2D, OrientedPoint2D, Point2D
@@ -275,7 +404,8 @@ def run_2d(case):
         hd = v["heading"]
         c = c + np.array([math.cos(hd) * v["cam"][0] - math.sin(hd) * v["cam"][1], math.sin(hd) * v["cam"][0] + math.cos(hd) * v["cam"][1], 0.0])
     out = dict(c=c.tolist(), d=float(viewer.visibleDistance), heading=float(v.get("heading", 0.0)),
-               angle=float(viewer.viewAngle) if v["cls"] != "Point2D" else math.tau)
+               angle=min(float(v["angle"]), math.tau) if v["cls"] != "Point2D" else math.tau,
+               va_obj=None if v["cls"] == "Point2D" else [float(x) for x in viewer.viewAngles])
     try:
         out["res"] = bool(viewer.canSee(target))
     except Exception as e:
@@ -299,13 +429,18 @@ def run_plumbing(case):
         except RejectionException:
             out["accepted"] = False
     except Exception as e:
-        out["exc"] = type(e).__name__ + ": " + str(e)[:300]
+        if type(e).__name__ == "InvalidScenarioError" and "is not visible from ego" in str(e):
+            # all positions are fixed: `requireVisible` is tested against the ego's view volume when the scenario is compiled
+            out["accepted"] = False
+            out["static_reject"] = True
+        else:
+            out["exc"] = type(e).__name__ + ": " + str(e)[:300]
     return out
 
 
 def main():
     job = json.load(sys.stdin)
-    fns = dict(points=run_point, objects=run_object, plumbing=run_plumbing, twod=run_2d)
+    fns = dict(points=run_point, objects=run_object, plumbing=run_plumbing, twod=run_2d, scripted=run_scripted)
     results = []
     for case in job["cases"]:
         fn = fns[case["k"] if job["kind"] == "mixed" else job["kind"]]
